@@ -713,6 +713,32 @@ def _compute_ranges(content_length: int, chunk_size: int) -> list[tuple[int, int
     return ranges
 
 
+def _check_chunk_content_range(content_range: str | None, start: int, end: int, content_length: int | None) -> None:
+    """Reject a 206 that does not cover exactly the requested range of the probed object.
+
+    The probe's length is only a claim, and a client has to inspect
+    ``Content-Range`` to learn which part a 206 encloses (RFC 9110 section
+    15.3.7).  A body of the right size is therefore not enough: an origin
+    whose probe under-reported the object, or a cache keyed without
+    ``Range``, would otherwise yield a silently truncated or mis-assembled
+    result.
+    """
+    if content_range is None:
+        # Tolerated: not every origin (or test double) sends it, and without
+        # it there is nothing to cross-check the body against.
+        return
+    match = re.match(r"^\s*bytes\s+(\d+)-(\d+)/(\d+|\*)\s*$", content_range)
+    if match is None:
+        raise RuntimeError("Range response has a malformed Content-Range header")
+    got_start, got_end, got_total = int(match.group(1)), int(match.group(2)), match.group(3)
+    if (got_start, got_end) != (start, end):
+        raise RuntimeError(f"Range response covers bytes {got_start}-{got_end}, not the requested range")
+    if content_length is not None and got_total != "*" and int(got_total) != content_length:
+        raise RuntimeError(
+            f"Range response reports a total size of {got_total} bytes, the probe reported {content_length}"
+        )
+
+
 async def _fetch_one_chunk(
     client: aiohttp.ClientSession,
     url: str,
@@ -721,13 +747,16 @@ async def _fetch_one_chunk(
     semaphore: asyncio.Semaphore,
     config: FetchConfig,
     url_validator: Callable[[str], None] | None,
+    *,
+    content_length: int | None = None,
 ) -> bytes:
     """Fetch a single byte range.
 
     Validates that the server returns HTTP 206 Partial Content. If the
     server ignores the Range header and returns 200, it would silently
     deliver the full body for every chunk, corrupting the reassembled
-    result.
+    result.  The ``Content-Range`` of the 206 must name exactly the
+    requested range and, when *content_length* is given, the same total.
     """
     expected_size = end - start + 1
     async with semaphore:
@@ -739,7 +768,9 @@ async def _fetch_one_chunk(
                     f"Expected HTTP 206 for Range request, got {resp.status} (bytes={start}-{end} of {redact_url(url)})"
                 )
             try:
-                return await _read_range_response_body(resp, expected_size, config)
+                data = await _read_range_response_body(resp, expected_size, config)
+                _check_chunk_content_range(resp.headers.get("Content-Range"), start, end, content_length)
+                return data
             except RuntimeError as exc:
                 raise RuntimeError(f"{exc} (bytes={start}-{end} of {redact_url(url)})") from None
 
@@ -768,7 +799,9 @@ async def _fetch_chunks_with_hedging(
         t0 = time.monotonic()
 
         async def _timed_fetch() -> tuple[int, bytes]:
-            data = await _fetch_one_chunk(client, url, start, end, semaphore, config, url_validator)
+            data = await _fetch_one_chunk(
+                client, url, start, end, semaphore, config, url_validator, content_length=content_length
+            )
             elapsed = time.monotonic() - t0
             completion_times.append(elapsed)
             return idx, data
